@@ -294,6 +294,35 @@ def history(h):
         h.ensures(f"client_field_written_before_read[{attr}]", ok, why=f"first read {first_load}, first write {first_store}")
     # (3) a fresh model (and results handler) per run
     h.ensures("fresh_model_and_results_handler_per_run", "model" in stores and "results_handler" in stores)
+    # (4) neither entry point ACCUMULATES into a field of the client: a field that is updated in place (item store, augmented
+    # assignment, mutating method) must have been assigned afresh earlier in the same call -- otherwise what a call returns
+    # depends on the calls made before it on the same client
+    MUT = ("setdefault", "update", "append", "extend", "pop", "clear", "insert", "remove", "popitem", "add", "sort", "reverse")
+    rp_hist = lambda ev: {"target": "verif_replays:national_summary_history_replay", "args": [], "check": "result['exc'] is None and result['ok']"}  # noqa: E731
+    for q in ENTRIES:
+        fe = source.load(q)
+        fresh = {}
+        for n in ast.walk(fe.node):
+            if isinstance(n, ast.Attribute) and isinstance(n.value, ast.Name) and n.value.id == "self" and isinstance(n.ctx, ast.Store):
+                fresh.setdefault(n.attr, []).append(n.lineno)
+        acc = []
+        for n in ast.walk(fe.node):
+            tgt = None
+            if isinstance(n, ast.Subscript) and isinstance(n.ctx, ast.Store):
+                tgt = n.value
+            elif isinstance(n, ast.AugAssign):
+                tgt = n.target.value if isinstance(n.target, ast.Subscript) else n.target
+            elif isinstance(n, ast.Call) and isinstance(n.func, ast.Attribute) and n.func.attr in MUT:
+                tgt = n.func.value
+            while isinstance(tgt, ast.Subscript):
+                tgt = tgt.value
+            if isinstance(tgt, ast.Attribute) and isinstance(tgt.value, ast.Name) and tgt.value.id == "self":
+                attr = tgt.attr
+                if attr.startswith("all_conformalization_data_"):
+                    continue  # (write-only collections of the conformalization data, never read back by an estimate)
+                if not any(l_ < n.lineno for l_ in fresh.get(attr, [])):
+                    acc.append(f"self.{attr} updated in place at line {n.lineno} without a fresh assignment earlier in {q.split('.')[-1]}")
+        h.ensures(f"client_fields_are_not_accumulated_across_calls[{q.split('.')[-1]}]", not acc, why=str(acc), replay=rp_hist)
 
 # "before or after other runs": a run must not modify the tables its caller passed in (the next run would see them changed) --
 # the frame condition of CombinedDataHandler.__init__ (contracts/C09.py)
